@@ -44,15 +44,17 @@ structure InvK (s : St) : Prop where
   nil : s.sh.ringsNil = false
   ks : ∀ t k, kOf s t = some k → KInvN s.sh t (stage k)
   runs : ∀ t i, kOf s t = some (.run i) → i ≤ 9
+  pidle : kOf s .proc ≠ some .idle
 
 theorem invK_init (c : Cfg) (s : St) (h : Init c s) : InvK s := by
   have hidle : ∀ t k, kOf s t = some k → k = .idle := by
     intro t k hk
     cases t <;> simp [kOf, h.proc] at hk
     exact h.ks k (List.mem_iff_getElem?.mpr ⟨_, hk⟩)
-  refine ⟨fun _ => ⟨h.winner, h.effects⟩, ?_, h.ringsNil, ?_, ?_⟩
+  refine ⟨fun _ => ⟨h.winner, h.effects⟩, ?_, h.ringsNil, ?_, ?_, ?_⟩
   rotate_left 2
   · intro t i hk; have := hidle t _ hk; cases this
+  · simp [kOf, h.proc]
   · intro hc; rw [h.closed] at hc; cases hc
   · intro t k hk
     have hk0 : stage k = 0 := by
@@ -106,7 +108,12 @@ theorem invK_frame (s s' : St) (hf : FrameK s.sh s'.sh)
     (hk : ∀ t k', kOf s' t = some k' → kOf s t = some k' ∨ (k' = .run 0 ∧ (kOf s t = none ∨ kOf s t = some .idle)))
     (hk2 : ∀ t k, kOf s t = some k → ∃ k', kOf s' t = some k')
     (hi : InvK s) : InvK s' := by
-  refine ⟨?_, ?_, ?_, ?_, ?_⟩
+  refine ⟨?_, ?_, ?_, ?_, ?_, ?_⟩
+  rotate_left 5
+  · intro hk'
+    rcases hk .proc _ hk' with h1 | ⟨h0, _⟩
+    · exact hi.pidle h1
+    · cases h0
   · intro hc; rw [hf.closed] at hc
     have := hi.opn hc
     rw [hf.winner, hf.effects]; exact this
@@ -329,9 +336,14 @@ theorem kinv_advance (s s' : St) (me : Tid) (k' : KPc)
     (hk' : kOf s' me = some k') (hoth : ∀ t, t ≠ me → kOf s' t = kOf s t) (hi : InvK s)
     (hwin : s.sh.winner = some me)
     (hw' : s'.sh.winner = s.sh.winner) (hc' : s'.sh.closed = s.sh.closed) (hnil : s'.sh.ringsNil = s.sh.ringsNil)
-    (hmine : KInvN s'.sh me (stage k')) (hrun : ∀ j, k' = .run j → j ≤ 9) : InvK s' := by
+    (hmine : KInvN s'.sh me (stage k')) (hrun : ∀ j, k' = .run j → j ≤ 9) (hidle : k' ≠ .idle) : InvK s' := by
   have hcl := invK_winner_closed s hi me hwin
-  refine ⟨?_, ?_, ?_, ?_, ?_⟩
+  refine ⟨?_, ?_, ?_, ?_, ?_, ?_⟩
+  rotate_left 5
+  · intro hp
+    by_cases htm : Tid.proc = me
+    · subst htm; rw [hk'] at hp; cases hp; exact hidle rfl
+    · rw [hoth .proc htm] at hp; exact hi.pidle hp
   · intro hc; rw [hc', hcl] at hc; cases hc
   · intro _; exact ⟨me, k', by rw [hw']; exact hwin, hk'⟩
   · rw [hnil]; exact hi.nil
@@ -365,7 +377,12 @@ theorem invK_kstep (c : Cfg) (hw : WF c) (s s' : St) (me : Tid) (k k' : KPc)
         simp [hc] at h
         obtain ⟨hsh, rfl⟩ := h
         have hne : s.sh.winner ≠ some me := fun hwm => by have := (hme.won hwm).1; omega
-        refine ⟨?_, ?_, ?_, ?_, ?_⟩
+        refine ⟨?_, ?_, ?_, ?_, ?_, ?_⟩
+        rotate_left 5
+        · intro hp
+          by_cases htm : Tid.proc = me
+          · subst htm; rw [hk'] at hp; cases hp
+          · rw [hoth .proc htm] at hp; exact hi.pidle hp
         · intro hc'; rw [← hsh, hc] at hc'; cases hc'
         · intro _
           obtain ⟨t, kk, h1, h2⟩ := hi.cls hc
@@ -388,7 +405,12 @@ theorem invK_kstep (c : Cfg) (hw : WF c) (s s' : St) (me : Tid) (k k' : KPc)
         obtain ⟨hsh, rfl⟩ := h
         simp at hc
         obtain ⟨hwn, heff⟩ := hi.opn hc
-        refine ⟨?_, ?_, ?_, ?_, ?_⟩
+        refine ⟨?_, ?_, ?_, ?_, ?_, ?_⟩
+        rotate_left 5
+        · intro hp
+          by_cases htm : Tid.proc = me
+          · subst htm; rw [hk'] at hp; cases hp
+          · rw [hoth .proc htm] at hp; exact hi.pidle hp
         · intro hc'; rw [← hsh] at hc'; cases hc'
         · intro _; exact ⟨me, _, by rw [← hsh], hk'⟩
         · rw [← hsh]; exact hi.nil
@@ -417,28 +439,28 @@ theorem invK_kstep (c : Cfg) (hw : WF c) (s s' : St) (me : Tid) (k k' : KPc)
       · -- close(done)
         simp [stopProgram, execStop] at h
         obtain ⟨hsh, rfl⟩ := h
-        refine kinv_advance s s' me _ hk' hoth hi hwin (by rw [← hsh]) (by rw [← hsh]) (by rw [← hsh]) ?_ (by intro j hj; cases hj; omega)
+        refine kinv_advance s s' me _ hk' hoth hi hwin (by rw [← hsh]) (by rw [← hsh]) (by rw [← hsh]) ?_ (by intro j hj; cases hj; omega) (by intro hx; cases hx)
         rw [← hsh]
         refine ⟨fun _ _ => hwin, fun _ => ?_, by simp [stage], by simp [stage]⟩
         simp [stage, w7, effAt]
       · -- conn.Close()
         simp [stopProgram, execStop] at h
         obtain ⟨hsh, rfl⟩ := h
-        refine kinv_advance s s' me _ hk' hoth hi hwin (by rw [← hsh]) (by rw [← hsh]) (by rw [← hsh]) ?_ (by intro j hj; cases hj; omega)
+        refine kinv_advance s s' me _ hk' hoth hi hwin (by rw [← hsh]) (by rw [← hsh]) (by rw [← hsh]) ?_ (by intro j hj; cases hj; omega) (by intro hx; cases hx)
         rw [← hsh]
         refine ⟨fun _ _ => hwin, fun _ => ?_, by simp [stage], by simp [stage]⟩
         simp [stage, w7, effAt, w2]
       · -- in.Close()
         simp [stopProgram, execStop, close_returns c hw.d2] at h
         obtain ⟨hsh, rfl⟩ := h
-        refine kinv_advance s s' me _ hk' hoth hi hwin (by rw [← hsh]) (by rw [← hsh]) (by rw [← hsh]) ?_ (by intro j hj; cases hj; omega)
+        refine kinv_advance s s' me _ hk' hoth hi hwin (by rw [← hsh]) (by rw [← hsh]) (by rw [← hsh]) ?_ (by intro j hj; cases hj; omega) (by intro hx; cases hx)
         rw [← hsh]
         refine ⟨fun _ _ => hwin, fun _ => ?_, by simp [stage], by simp [stage]⟩
         simp [stage, w7, effAt, w2, w3]
       · -- out.Close()
         simp [stopProgram, execStop, close_returns c hw.d2] at h
         obtain ⟨hsh, rfl⟩ := h
-        refine kinv_advance s s' me _ hk' hoth hi hwin (by rw [← hsh]) (by rw [← hsh]) (by rw [← hsh]) ?_ (by intro j hj; cases hj; omega)
+        refine kinv_advance s s' me _ hk' hoth hi hwin (by rw [← hsh]) (by rw [← hsh]) (by rw [← hsh]) ?_ (by intro j hj; cases hj; omega) (by intro hx; cases hx)
         rw [← hsh]
         refine ⟨fun _ _ => hwin, fun _ => ?_, by simp [stage], by simp [stage]⟩
         simp [stage, w7, effAt, w2, w3, w4]
@@ -447,7 +469,7 @@ theorem invK_kstep (c : Cfg) (hw : WF c) (s s' : St) (me : Tid) (k k' : KPc)
         by_cases hwg : s.sh.wg = 0
         · simp [hwg] at h
           obtain ⟨hsh, rfl⟩ := h
-          refine kinv_advance s s' me _ hk' hoth hi hwin (by rw [← hsh]) (by rw [← hsh]) (by rw [← hsh]) ?_ (by intro j hj; cases hj; omega)
+          refine kinv_advance s s' me _ hk' hoth hi hwin (by rw [← hsh]) (by rw [← hsh]) (by rw [← hsh]) ?_ (by intro j hj; cases hj; omega) (by intro hx; cases hx)
           rw [← hsh]
           refine ⟨fun _ _ => hwin, fun _ => ?_, by simp [stage], by simp [stage]⟩
           simp [stage, w7, effAt, w2, w3, w4, w5, hwg]
@@ -455,7 +477,7 @@ theorem invK_kstep (c : Cfg) (hw : WF c) (s s' : St) (me : Tid) (k k' : KPc)
       · -- unsubscribe
         simp [stopProgram, execStop] at h
         obtain ⟨hsh, rfl⟩ := h
-        refine kinv_advance s s' me _ hk' hoth hi hwin (by rw [← hsh]) (by rw [← hsh]) (by rw [← hsh]) ?_ (by intro j hj; cases hj; omega)
+        refine kinv_advance s s' me _ hk' hoth hi hwin (by rw [← hsh]) (by rw [← hsh]) (by rw [← hsh]) ?_ (by intro j hj; cases hj; omega) (by intro hx; cases hx)
         rw [← hsh]
         refine ⟨fun _ _ => hwin, fun _ => ?_, by simp [stage], by simp [stage]⟩
         simp [stage, w7, effAt, w2, w3, w4, w5, w6]
@@ -464,12 +486,12 @@ theorem invK_kstep (c : Cfg) (hw : WF c) (s s' : St) (me : Tid) (k k' : KPc)
         obtain ⟨hsh, rfl⟩ := h
         by_cases hf : s.sh.willFlag = true
         · simp [hf] at hsh
-          refine kinv_advance s s' me _ hk' hoth hi hwin (by rw [← hsh]) (by rw [← hsh]) (by rw [← hsh]) ?_ (by intro j hj; cases hj; omega)
+          refine kinv_advance s s' me _ hk' hoth hi hwin (by rw [← hsh]) (by rw [← hsh]) (by rw [← hsh]) ?_ (by intro j hj; cases hj; omega) (by intro hx; cases hx)
           rw [← hsh]
           refine ⟨fun _ _ => hwin, fun _ => ?_, by simp [stage], by simp [stage]⟩
           simp [stage, w7, effAt, w2, w3, w4, w5, w6, hf]
         · simp [hf] at hsh
-          refine kinv_advance s s' me _ hk' hoth hi hwin (by rw [← hsh]) (by rw [← hsh]) (by rw [← hsh]) ?_ (by intro j hj; cases hj; omega)
+          refine kinv_advance s s' me _ hk' hoth hi hwin (by rw [← hsh]) (by rw [← hsh]) (by rw [← hsh]) ?_ (by intro j hj; cases hj; omega) (by intro hx; cases hx)
           rw [← hsh]
           refine ⟨fun _ _ => hwin, fun _ => ?_, by simp [stage], by simp [stage]⟩
           simp [stage, w7, effAt, w2, w3, w4, w5, w6, hf]
@@ -478,12 +500,12 @@ theorem invK_kstep (c : Cfg) (hw : WF c) (s s' : St) (me : Tid) (k k' : KPc)
         obtain ⟨hsh, rfl⟩ := h
         by_cases hf : s.sh.clean = true
         · simp [hf] at hsh
-          refine kinv_advance s s' me _ hk' hoth hi hwin (by rw [← hsh]) (by rw [← hsh]) (by rw [← hsh]) ?_ (by intro j hj; cases hj; omega)
+          refine kinv_advance s s' me _ hk' hoth hi hwin (by rw [← hsh]) (by rw [← hsh]) (by rw [← hsh]) ?_ (by intro j hj; cases hj; omega) (by intro hx; cases hx)
           rw [← hsh]
           refine ⟨fun _ _ => hwin, fun _ => ?_, by simp [stage], by simp [stage]⟩
           by_cases hwf : s.sh.willFlag = true <;> simp [stage, w7, effAt, w2, w3, w4, w5, w6, hf, hwf]
         · simp [hf] at hsh
-          refine kinv_advance s s' me _ hk' hoth hi hwin (by rw [← hsh]) (by rw [← hsh]) (by rw [← hsh]) ?_ (by intro j hj; cases hj; omega)
+          refine kinv_advance s s' me _ hk' hoth hi hwin (by rw [← hsh]) (by rw [← hsh]) (by rw [← hsh]) ?_ (by intro j hj; cases hj; omega) (by intro hx; cases hx)
           rw [← hsh]
           refine ⟨fun _ _ => hwin, fun _ => ?_, by simp [stage], by simp [stage]⟩
           by_cases hwf : s.sh.willFlag = true <;> simp [stage, w7, effAt, w2, w3, w4, w5, w6, hf, hwf]
@@ -492,7 +514,7 @@ theorem invK_kstep (c : Cfg) (hw : WF c) (s s' : St) (me : Tid) (k k' : KPc)
         subst hi0
         simp [stopProgram] at h
         obtain ⟨hsh, rfl⟩ := h
-        refine kinv_advance s s' me _ hk' hoth hi hwin (by rw [← hsh]) (by rw [← hsh]) (by rw [← hsh]) ?_ (by intro j hj; cases hj)
+        refine kinv_advance s s' me _ hk' hoth hi hwin (by rw [← hsh]) (by rw [← hsh]) (by rw [← hsh]) ?_ (by intro j hj; cases hj) (by intro hx; cases hx)
         rw [← hsh]
         refine ⟨by simp [stage], fun _ => ?_, fun _ => hcl, by simp [stage]⟩
         simp [stage, w7, effAt, w2, w3, w4, w5, w6]
